@@ -72,6 +72,21 @@ class CorrectionStream(Alphabet):
                 return (("corr", ctx(a[1])), False)
             if m == "encode_misprediction":
                 v = flow.const_eval(body, a[2])
+                if v is None:
+                    # a flag held in a variable: writing it is writing true on the paths where it is true and false on the
+                    # others — split here so that a later `if flag { .. }` follows the same case
+                    p = op_place(a[2])
+                    locs = []
+                    while p is not None and not p["p"] and body.local_ty(p["l"]) == "bool" and len(locs) < 6:
+                        locs.append(p["l"])
+                        dd = body.single_def(p["l"])
+                        if dd and dd[2] == "assign" and dd[3]["k"] == "use":
+                            p = op_place(dd[3]["op"])
+                        else:
+                            break
+                    if locs and len(flow.uses(body, locs[-1])) > 1:
+                        c = ctx(a[1])
+                        return [(("mis", c, 1), None, {l: ("i", 1) for l in locs}), (("mis", c, 0), None, {l: ("i", 0) for l in locs})]
                 return (("mis", ctx(a[1]), v), False)
             if m == "encode_value":
                 return (("val", flow.const_eval(body, a[2]), flow.const_eval(body, a[1])), False)
